@@ -1882,7 +1882,7 @@ SOURCE_TIES = [{
 }]
 
 TIE_ATOMS = [None, True, 1, 1.0, 1.5, "a", "__p", b"a"]
-TIE_KEYS = ["a", "b", "__p", 1, None, b"a", ""]
+TIE_KEYS = ["a", "b", "__p", "_q", 1, None, b"a", ""]
 TIE_HEADER = ("From DD Require Import Base.PyStr Base.Value Hash.HashModel Hash.HashShow Hash.HashSrcPrims.\n"
               "From DDGen Require Import HashGen.\n"
               "Local Open Scope Z_scope.\n"
@@ -1923,18 +1923,16 @@ def tie_universe():
     return out
 
 
-def on_source_tie_break(ctx, name, rec):
-    """core.source_tie_step calls this when the tie is not intact.  If the regenerated model compiled, difference it against
-    the hand-written model inside Coq on the bounded-exhaustive universe above x every option record the module runs, take the
-    first (value, options) on which they differ, and judge those inputs like any generated case: the ordinary correspondence
-    (real DeepHash vs Hash/HashModel.v, exact strings and table) and the direct oracle.  Nothing here calls ctx.fail / ctx.break_
-    by itself."""
+def tie_difference(ctx, rec):
+    """(evidence dict, [(value, options, generated model's output)]): the regenerated serialiser differenced against the
+    hand-written model inside Coq on the bounded-exhaustive universe above x every option record the module runs; the distinct
+    differing inputs, smallest first (at most 12).  Shared with c07."""
     status = rec.get("status")
     if status in ("translator-rejected", "generated-model-does-not-compile"):
-        return {"searched": "nothing to evaluate (%s): the streams of run() are escalated to thorough-size budgets instead" % status}
+        return {"searched": "nothing to evaluate (%s): the streams of run() are escalated to thorough-size budgets instead" % status}, []
     gen_dir = os.path.join(ctx.scratch, "srctie")
     if not os.path.exists(os.path.join(gen_dir, "HashGen.vo")):
-        return {"searched": "nothing to evaluate: no compiled HashGen in the scratch directory"}
+        return {"searched": "nothing to evaluate: no compiled HashGen in the scratch directory"}, []
     ctx.ensure_built(TIE_HEADER)
     univ = tie_universe()
     recs = MODES4 + OPTION_SAMPLES
@@ -1980,7 +1978,7 @@ def on_source_tie_break(ctx, name, rec):
         res["searched"] = ("generated vs hand-written serialiser evaluated inside Coq (vm_compute, hex hasher, fresh table: root string "
                            "and every table entry) on the bounded-exhaustive universe: " +
                            ("no difference" if not errors else "NOT EVALUATED on %d shard(s) (coqc failed); no difference on the others" % len(errors)))
-        return res
+        return res, []
     # the distinct differing inputs, smallest first; judged by the module's ordinary correspondence and oracle
     picked, seen_v = [], set()
     for i, txt in sorted(differing, key=lambda d: (len(values.to_coq(pairs[d[0]][0])), d[0])):
@@ -1992,14 +1990,38 @@ def on_source_tie_break(ctx, name, rec):
         if len(picked) >= 12:
             break
     v0, o0, txt0 = picked[0]
-    res["first"] = {"value": expr_shared(v0), "opts": list(o0), "generated_model": txt0[:600],
-                    "implementation": core.sx_show([impl_hash(v0, o0, hexhasher)[0], table_of(impl_hash(v0, o0, hexhasher)[1].hashes, [v0])])[:600]}
+    res["first"] = {"value": expr_shared(v0), "opts": list(o0), "generated_model": txt0[:600]}
+    try:
+        r0, dh0 = impl_hash(v0, o0, hexhasher)
+        res["first"]["implementation"] = core.sx_show([r0, table_of(dh0.hashes, [v0])])[:600]
+    except Exception as e:
+        res["first"]["implementation"] = "raised %r" % (e,)
+    return res, picked
+
+
+def tie_correspondence(ctx, picked):
+    """the differing inputs through the ordinary correspondence (real DeepHash vs Hash/HashModel.v: root string and table)"""
     for n_o, o in enumerate(sorted(set(o for (_v, o, _t) in picked), key=repr)):
-        corr_single(ctx, [copy.deepcopy(v) for (v, o2, _t) in picked if o2 == o], [o], "tie_replay_%d" % n_o, "source_tie_differing_inputs")
-    for (v, o, _txt) in picked:
-        oracle_value(ctx, copy.deepcopy(v), o, random.Random(0), hasher=None)
-        oracle_value(ctx, copy.deepcopy(v), o, random.Random(0), hasher=hexhasher)
-    res["replayed"] = len(picked)
+        vs = [copy.deepcopy(v) for (v, o2, _t) in picked if o2 == o]
+        try:
+            corr_single(ctx, vs, [o], "tie_replay_%d" % n_o, "source_tie_differing_inputs")
+        except Exception as e:      # the implementation raises on a modelled input: the model predicts a hash
+            ctx.break_("correspondence", {"name": "tie_replay_%d" % n_o, "values": [expr_shared(v) for v in vs], "opts": list(o),
+                                          "error": "the implementation raised %r; the model gives a hash" % (e,)})
+
+
+def on_source_tie_break(ctx, name, rec):
+    """core.source_tie_step calls this when the tie is not intact.  If the regenerated model compiled, difference it against
+    the hand-written model (tie_difference) and judge the differing inputs like any generated case: the ordinary correspondence
+    and the direct oracle.  A broken tie by itself calls neither ctx.fail nor ctx.break_."""
+    res, picked = tie_difference(ctx, rec)
+    if picked:
+        tie_correspondence(ctx, picked)
+        for (v, o, _txt) in picked:
+            for seed in (0, 1, 2):
+                oracle_value(ctx, copy.deepcopy(v), o, random.Random(seed), hasher=None)
+            oracle_value(ctx, copy.deepcopy(v), o, random.Random(0), hasher=hexhasher)
+        res["replayed"] = len(picked)
     return res
 
 
